@@ -748,6 +748,10 @@ class CallMixin:
                     self.run.effects.append((e_, lineno))
             elif top is not None and top.opts.get("effects") is not None:
                 self.oblige("frame", z3.BoolVal(False), lineno, note=f"callee {short} declares no effects", label="frame.effects.callee")
+        if self.merge_depth > 0 and self.spec_depth == 0 and c.modifies:
+            # a state-modifying callee under a binder (comprehension body) would be evaluated against the initial
+            # state for every element: not expressible -> the unit is undecided, never silently approximated
+            raise Unsupported(f"call of {short} (modifies {c.modifies}) inside a comprehension over a symbolic sequence")
         if "requires" in c.methods:
             pre = truthy(self.spec_eval(c, "requires", vals))
             self.oblige("pre", pre, lineno, label=f"pre@{short}@L{lineno}")
